@@ -230,6 +230,173 @@ func runC20(c *Ctx) {
 		}
 		c.Floor("C20.clamp/"+name, n, 3)
 	}
+	// ---- the fixed generator plays its configuration without writing into it
+	c.Rule("C20.fixed-intact", "FixedQueue: NewFixed keeps the caller's response slice (the configuration every Subscribe/Poll is reset from), so no FixedQueue method stores into an element of resp or through a response taken from it - unless NewFixed copies the slice first; a second generator built from the same configuration must find it unchanged")
+	{
+		fResp := P.Field("testing/fake/queue", "FixedQueue", "resp")
+		newFixed := P.Func("testing/fake/queue", "NewFixed")
+		if fResp == nil || newFixed == nil {
+			c.Unresolved("C20.fixed-intact", "queue.FixedQueue.resp / queue.NewFixed")
+		} else {
+			c.Analysed(fnName(newFixed))
+			// does NewFixed store its parameter itself (shared) or a copy?
+			shared := false
+			instrs(newFixed, func(in ssa.Instruction) {
+				if st, ok := in.(*ssa.Store); ok && fieldOf(st.Addr) == fResp {
+					src := map[baseKind][]ssa.Value{}
+					NewAliasAudit(P).sources(st.Val, map[ssa.Value]bool{}, src)
+					if len(src[baseForeign]) > 0 {
+						shared = true
+					}
+					for _, ch := range src[baseChain] {
+						if !NewAliasAudit(P).rootedFresh(ch, map[ssa.Value]bool{}) {
+							shared = true
+						}
+					}
+				}
+			})
+			n := 0
+			for _, f := range P.PkgFuncs("testing/fake/queue") {
+				if P.InTestFile(f) {
+					continue
+				}
+				instrs(f, func(in ssa.Instruction) {
+					st, ok := in.(*ssa.Store)
+					if !ok {
+						return
+					}
+					// address rooted in an element of q.resp: q.resp[i] = … or q.resp[i].X = …
+					v := st.Addr
+					through := false
+					for i := 0; i < 12; i++ {
+						switch x := v.(type) {
+						case *ssa.FieldAddr:
+							v = x.X
+							continue
+						case *ssa.UnOp:
+							if x.Op == token.MUL {
+								if fieldOf(x.X) == fResp {
+									through = true
+								}
+								v = x.X
+								continue
+							}
+						case *ssa.IndexAddr:
+							v = x.X
+							continue
+						case *ssa.Slice:
+							v = x.X
+							continue
+						}
+						break
+					}
+					if fieldOf(st.Addr) == fResp {
+						return // q.resp = … replaces the queue's own slice header
+					}
+					if through {
+						n++
+						c.Check(!shared, "C20.fixed-intact", fnName(f), "store into the configured responses: "+Expr(st.Addr), P.Pos(in.Pos()), "NewFixed keeps the caller's slice: the write is visible to the configuration and to every later generator built from it")
+					}
+				})
+			}
+			c.OK("C20.fixed-intact", fnName(newFixed), "stores through FixedQueue.resp inspected", P.Pos(newFixed.Pos()), fmt.Sprintf("NewFixed shares the caller's slice=%v; %d element stores", shared, n))
+		}
+	}
+	// ---- range gate: a current value anywhere in [minimum, maximum] (bounds included) is accepted
+	c.Rule("C20.range-gate", "update{Int,Uint,Double}Value, range arm, replayed over the orderings of the current value, Minimum and Maximum: a value inside the closed range (at the minimum, strictly inside, at the maximum - the clamp itself produces the bounds) is never refused; a value outside it, or Minimum > Maximum, returns an error without storing")
+	for _, name := range []string{"updateIntValue", "updateUintValue", "updateDoubleValue"} {
+		f := P.Method("testing/fake/queue", "value", name)
+		if f == nil {
+			c.Unresolved("C20.range-gate", "queue.(*value)."+name)
+			continue
+		}
+		opClass := func(e *PPA, st *State, rv RV) string {
+			r := e.Resolve(st, rv)
+			fieldName := ""
+			switch v := r.V.(type) {
+			case *ssa.UnOp:
+				if v.Op == token.MUL {
+					if fa, ok := v.X.(*ssa.FieldAddr); ok {
+						if n, ok := deref(fa.X.Type()).(*types.Named); ok && n.Obj().Pkg() != nil && strings.HasSuffix(n.Obj().Pkg().Path(), "testing/fake/proto") {
+							fieldName = vname(fieldOf(fa))
+						}
+					}
+				}
+			case *ssa.Call:
+				if g := staticCallee(&v.Call); g != nil && isProtoGetter(g) {
+					fieldName = strings.TrimPrefix(g.Name(), "Get")
+				}
+			}
+			switch fieldName {
+			case "Value":
+				return "V"
+			case "Minimum":
+				return "MIN"
+			case "Maximum":
+				return "MAX"
+			case "DeltaMin":
+				return "DMIN"
+			case "DeltaMax":
+				return "DMAX"
+			}
+			return ""
+		}
+		storeVal := func(ev *Ev) bool {
+			return strings.HasPrefix(ev.Label, "store:") && strings.HasSuffix(ev.Label, "Value.Value")
+		}
+		n := 0
+		for _, sc := range []struct {
+			name           string
+			vmin, vmax, mm int // sign(V-MIN), sign(V-MAX), sign(MIN-MAX)
+			accept         bool
+		}{
+			{"value at the minimum", 0, -1, -1, true},
+			{"value strictly inside the range", 1, -1, -1, true},
+			{"value at the maximum", 1, 0, -1, true},
+			{"minimum = maximum = value", 0, 0, 0, true},
+			{"value below the minimum", -1, -1, -1, false},
+			{"value above the maximum", 1, 1, -1, false},
+			{"minimum above maximum", 1, -1, 1, false},
+		} {
+			at := &Atoms{Class: opClass, Rel: map[[2]string]int{{"V", "MIN"}: sc.vmin, {"V", "MAX"}: sc.vmax, {"MIN", "MAX"}: sc.mm, {"DMIN", "DMAX"}: -1}}
+			e := &PPA{Cond: at.Cond, TraceBranches: true, Watch: func(ev *Ev) bool { return storeVal(ev) || ev.Label == "if" }}
+			e.Run(f)
+			c.Paths += len(e.Paths)
+			c.Scen++
+			for i := range e.Paths {
+				p := &e.Paths[i]
+				if p.End != "return" || len(p.Rets) != 1 {
+					continue
+				}
+				// the range arm: a decision over the value and the bounds was taken on this path
+				gate := p.Has(func(ev *Ev) bool {
+					if ev.Label != "if" || len(ev.Args) == 0 {
+						return false
+					}
+					b, ok := ev.Args[0].V.(*ssa.BinOp)
+					if !ok {
+						return false
+					}
+					st := newState()
+					x, y := opClass(e, st, RV{ev.Args[0].F, b.X}), opClass(e, st, RV{ev.Args[0].F, b.Y})
+					in := func(s string) bool { return s == "V" || s == "MIN" || s == "MAX" }
+					return in(x) && in(y)
+				})
+				if !gate {
+					continue
+				}
+				n++
+				rc := retClass(p.Rets[0])
+				stored := p.Has(storeVal)
+				if sc.accept {
+					c.Check(rc == "nil" && stored, "C20.range-gate", fnName(f), sc.name+": accepted", P.Pos(f.Pos()), fmt.Sprintf("returns %s, new value stored=%v", rc, stored))
+				} else {
+					c.Check(rc != "nil" && !stored, "C20.range-gate", fnName(f), sc.name+": refused", P.Pos(f.Pos()), fmt.Sprintf("returns %s, new value stored=%v", rc, stored))
+				}
+			}
+		}
+		c.Floor("C20.range-gate/"+name, n, 7)
+	}
 	// ---- delta
 	{
 		c.Analysed(fnName(updTS))
